@@ -168,6 +168,10 @@ def _run(ctx):
             ctx.report({'part': 'date', 't': t, 'line': 'date %d' % t, 'out_of_range': True}, 'impl=' + b, 'model=' + a,
                        cls='date-model-mismatch-out-of-range', failing_input=False,
                        what='model and implementation differ on a timestamp outside 1970..9999 (not part of the property)')
+    ctx.notes.append('date, outside the property (observed, model agrees): t < 0 gives proleptic dates (year < 1000 printed '
+                     'unpadded), t >= 253402300800 gives 5-digit years, year >= 65536 wraps in `as u16`, '
+                     't < i64::MIN + 951868800 panics in a debug build (subtraction overflow; theorem '
+                     'C18_date_no_panic_except_subtraction_overflow shows it is the only panic site)')
     for t, tag in state['first'] + state['last']:
         ctx.sample({'part': 'date', 't': t, 'stream': tag, 'expected': unhx(oracle(t)[0].split(' ')[-1]).decode()
                     if 0 <= t < END else None})
